@@ -752,15 +752,69 @@ func c05Drain(st *c05State, idx int) bool {
 	}
 }
 
+// ---- part 4: steered trials for the two-pass candidate scan of least-connections ----
+
+// c05WlcTies: all backends tie on conn/weight, one goroutine keeps picking with
+// WlcSimple / WlcSmooth while another keeps flipping every backend's
+// availability, so that the second pass of the candidate scan can see a
+// different state than the first. Returns false once a panic was recorded.
+func c05WlcTies(st *c05State, idx int) bool {
+	r := st.r
+	g := r.Rng("c05-wlc", idx)
+	nb := g.Range(2, 3)
+	var specs []bspec
+	for i := 0; i < nb; i++ {
+		specs = append(specs, bspec{Name: fmt.Sprintf("t%d", i), Addr: fmt.Sprintf("10.6.0.%d", i+1), Port: 80, Weight: 1})
+	}
+	brr := bal_slb.NewBalanceRR("s")
+	brr.Init(confOf(specs))
+	var bks []*backend.BfeBackend
+	for _, b := range brr.VerifSnapshot().Backends {
+		bks = append(bks, b.Backend)
+	}
+	alg := []int{bal_slb.WlcSimple, bal_slb.WlcSimple, bal_slb.WlcSmooth}[g.Intn(3)]
+	stop := make(chan struct{})
+	flips := make(chan struct{})
+	go func() {
+		defer close(flips)
+		for {
+			for _, up := range []bool{false, true} {
+				for _, b := range bks {
+					b.SetAvail(up)
+				}
+				select {
+				case <-stop:
+					return
+				default:
+				}
+			}
+		}
+	}()
+	panicked := false
+	for k := 0; k < 3000 && !panicked; k++ {
+		panicked = try(r, func() interface{} {
+			return map[string]interface{}{"backends": specs, "alg": algNames[alg],
+				"schedule": "goroutine A: Balance(alg) in a loop on backends that all tie on conn/weight; goroutine B: SetAvail(false) on every backend, then SetAvail(true) on every backend, repeatedly"}
+		}, func() { brr.Balance(alg, nil) })
+	}
+	close(stop)
+	<-flips
+	r.Count("wlc_tie_trials", 1)
+	return !panicked
+}
+
 func c05(r *vkit.Run) {
 	r.RaceScope("bfe_balance/")
-	r.SetRule("part 1 (sequential totality): every list of 0-3 backends with weight in {-1,0,1,2} x available/unavailable, built by Init or Update, x all 5 algorithms x (50 + 100*sum of pickable weights) calls, each class (algorithm, list shape) in its own watchdogged goroutine. part 2 (concurrent): histories with G in {4,16,64} goroutines on one shared balancer: family gslb (BalanceGslb: Balance, SetAvail, Inc/DecConnNum, Reload, BackendReload with lists of 0/1/2/8, SetSlowStart, SetGslbBasic, State), family rr (BalanceRR: Balance with WrrSmooth/WrrSticky/WlcSimple/WlcSmooth, SetAvail, Inc/DecConnNum, Update, SetSlowStart), family rr-simple (adds WrrSimple; lists non-empty, weights positive); a quarter of the goroutines are mutators. part 3: steered trials where every backend is marked unavailable while WrrSimple rescans after its credits ran out. Monitors: race detector (scope bfe_balance/), recovered panics, termination after quiescence (all mutators finished; at the end of the run the call has still not returned, completes nothing during the confirmation window and is seen running in the same bfe frame in 5/5 stack samples). Non-trivial = history with >=2 goroutines or probe with >=2 backends; distinct = interleaving fingerprint (completion order of all ops) / probe")
+	r.SetRule("part 1 (sequential totality): every list of 0-3 backends with weight in {-1,0,1,2} x available/unavailable, built by Init or Update, x all 5 algorithms x (50 + 100*sum of pickable weights) calls, each class (algorithm, list shape) in its own watchdogged goroutine. part 2 (concurrent): histories with G in {4,16,64} goroutines on one shared balancer: family gslb (BalanceGslb: Balance, SetAvail, Inc/DecConnNum, Reload, BackendReload with lists of 0/1/2/8, SetSlowStart, SetGslbBasic, State), family rr (BalanceRR: Balance with WrrSmooth/WrrSticky/WlcSimple/WlcSmooth, SetAvail, Inc/DecConnNum, Update, SetSlowStart), family rr-simple (adds WrrSimple; lists non-empty, weights positive); a quarter of the goroutines are mutators. part 3: steered trials where every backend is marked unavailable while WrrSimple rescans after its credits ran out. part 4: steered trials where all backends tie on conn/weight and their availability is flipped while WlcSimple/WlcSmooth picks. Monitors: race detector (scope bfe_balance/), recovered panics, termination after quiescence (all mutators finished; at the end of the run the call has still not returned, completes nothing during the confirmation window and is seen running in the same bfe frame in 5/5 stack samples). Non-trivial = history with >=2 goroutines or probe with >=2 backends; distinct = interleaving fingerprint (completion order of all ops) / probe")
 	r.Assume("interleavings are sampled, not enumerated; a hang is only reported for a state that no goroutine changes any more")
 	st := &c05State{r: r, hung: map[string]bool{}}
 	if r.Replay != "" {
 		var w struct {
 			Probe   *c05Probe `json:"probe"`
 			History *c05Hist  `json:"history"`
+			Case    *struct {
+				Alg string `json:"alg"`
+			} `json:"case"`
 		}
 		if err := r.LoadReplay(&w); err != nil {
 			r.Inconclusive(err.Error())
@@ -771,6 +825,9 @@ func c05(r *vkit.Run) {
 			c05Sequential(st, []*c05Probe{w.Probe})()
 		case w.History != nil:
 			c05Run(st, w.History)
+		case w.Case != nil && w.Case.Alg != "":
+			for i := 0; i < 400 && c05WlcTies(st, i); i++ {
+			}
 		default:
 			for i := 0; i < 3000 && c05Drain(st, i); i++ {
 			}
@@ -808,6 +865,13 @@ func c05(r *vkit.Run) {
 	for i := 0; i < nd; i++ {
 		if !c05Drain(st, i) {
 			r.Count("drain_trials_skipped_after_hang", int64(nd-i-1))
+			break
+		}
+	}
+	nw := r.N(400, 4000)
+	for i := 0; i < nw; i++ {
+		if !c05WlcTies(st, i) {
+			r.Count("wlc_tie_trials_skipped_after_panic", int64(nw-i-1))
 			break
 		}
 	}
